@@ -549,6 +549,8 @@ func codecExec(tok []string) string {
 		return codecLane(tok)
 	case "batch":
 		return codecBatch(tok)
+	case "fwd":
+		return codecFwd(tok)
 	case "sess":
 		return codecSess("-", []byte(unhx(tok[1])), []byte(unhx(tok[2])))
 	case "gold":
@@ -917,6 +919,10 @@ func codecGen(rng *rand.Rand, n int, emit func(string)) {
 		}
 		if i%32 == 5 {
 			emit(cdGenBatch(rng))
+			continue
+		}
+		if i%128 == 45 { // the two forwarders on real sockets: few
+			emit(cdGenFwd(rng))
 			continue
 		}
 		if i%4 == 3 {
